@@ -52,6 +52,9 @@ type analyzer struct {
 	depth   int
 	stack   []*types.Func
 	notes   []string
+	ctorCtx bool
+	roots   map[*types.Func]bool
+	extra   []*types.Func
 }
 
 const maxPaths = 600
@@ -77,6 +80,9 @@ func deref(t types.Type) types.Type {
 
 func namedOf(t types.Type) *types.Named {
 	n, _ := deref(t).(*types.Named)
+	if n != nil {
+		return n.Origin()
+	}
 	return n
 }
 
@@ -116,19 +122,65 @@ func clonePaths(p []path) []path {
 	return out
 }
 
+// dedupe merges paths that perform the same sequence of lock operations: between two lock operations the
+// held locks do not change, so the accesses of such paths can be pooled segment by segment (sound and
+// complete for "every access is covered by the locks held at that point").
 func dedupe(ps []path) []path {
-	seen := map[string]bool{}
-	var out []path
+	type merged struct {
+		ops  []event
+		segs []map[string]event
+	}
+	idx := map[string]*merged{}
+	var order []string
 	for _, p := range ps {
 		var sb strings.Builder
+		var ops []event
+		segs := []map[string]event{{}}
 		for _, e := range p {
-			sb.WriteString(e.K + e.Base + e.Name + e.Mode + ";")
+			if e.K == "acc" {
+				k := e.Base + "|" + e.Name + "|" + e.Mode
+				if _, ok := segs[len(segs)-1][k]; !ok {
+					segs[len(segs)-1][k] = e
+				}
+				continue
+			}
+			sb.WriteString(e.K + e.Base + "|" + e.Name + e.Mode + ";")
+			ops = append(ops, e)
+			segs = append(segs, map[string]event{})
 		}
 		k := sb.String()
-		if !seen[k] {
-			seen[k] = true
-			out = append(out, p)
+		m, ok := idx[k]
+		if !ok {
+			idx[k] = &merged{ops: ops, segs: segs}
+			order = append(order, k)
+			continue
 		}
+		for i := range segs {
+			for kk, e := range segs[i] {
+				if _, ok := m.segs[i][kk]; !ok {
+					m.segs[i][kk] = e
+				}
+			}
+		}
+	}
+	var out []path
+	for _, k := range order {
+		m := idx[k]
+		var p path
+		for i, seg := range m.segs {
+			var ks []string
+			for kk := range seg {
+				ks = append(ks, kk)
+			}
+			sort.Strings(ks)
+			for _, kk := range ks {
+				p = append(p, seg[kk])
+			}
+			if i < len(m.ops) {
+				p = append(p, m.ops[i])
+			}
+		}
+		out = append(out, p)
 	}
 	return out
 }
@@ -291,6 +343,9 @@ func registers(name string) bool {
 }
 
 func (a *analyzer) deferUnit(fl *ast.FuncLit) {
+	if a.ctorCtx {
+		return // an option closure (BreakWithProcess(p) = func(b) { b.process = p }): applied by the constructor, before the object is shared
+	}
 	name := fmt.Sprintf("%s$%s", a.curFn, a.pos(fl))
 	a.pending = append(a.pending, func() { a.analyzeBody(name, fl.Body) })
 }
@@ -340,14 +395,12 @@ func (a *analyzer) call(ps *pset, call *ast.CallExpr) {
 			if reg {
 				a.deferUnit(fl)
 			} else {
-				// synchronous callback: zero or one run of its body
+				// synchronous callback: zero or one run of its body; a return inside ends the callback only
 				before := clonePaths(ps.open)
-				saveDone := ps.done
-				a.block(ps, fl.Body.List)
-				// returns inside the callback end the callback, not the caller
-				extra := ps.done[len(saveDone):]
-				ps.done = saveDone
-				ps.open = dedupe(append(append(ps.open, extra...), before...))
+				sub := &pset{open: clonePaths(ps.open)}
+				a.block(sub, fl.Body.List)
+				a.finish(sub)
+				ps.open = dedupe(append(sub.done, before...))
 			}
 			continue
 		}
@@ -371,8 +424,9 @@ func (a *analyzer) inline(ps *pset, fn *types.Func, d *ast.FuncDecl, recvText st
 			return // recursion: the callee's events at this depth are those already on the path
 		}
 	}
-	if len(a.stack) >= 4 {
-		a.notes = append(a.notes, fmt.Sprintf("inlining cut at depth 4: %s at %s", fn.FullName(), a.pos(call)))
+	if len(a.stack) >= 7 {
+		a.notes = append(a.notes, fmt.Sprintf("inlining cut at depth 7: %s at %s (analysed on its own instead)", fn.FullName(), a.pos(call)))
+		a.extra = append(a.extra, fn)
 		return
 	}
 	a.stack = append(a.stack, fn)
@@ -430,6 +484,9 @@ func (a *analyzer) block(ps *pset, list []ast.Stmt) {
 			return
 		}
 		a.stmt(ps, s)
+		if len(ps.open) > 1 {
+			ps.open = dedupe(ps.open)
+		}
 		if len(ps.open)+len(ps.done) > maxPaths {
 			ps.open = dedupe(ps.open)
 			ps.done = dedupe(ps.done)
@@ -606,8 +663,29 @@ func (a *analyzer) clauses(ps *pset, list []ast.Stmt, implicitDefault bool) {
 func (a *analyzer) ret(ps *pset) {
 	for _, p := range ps.open {
 		np := append(path(nil), p...)
+		held := map[string]int{}
+		for _, e := range np {
+			switch e.K {
+			case "acq":
+				held[e.Base+"|"+e.Name+"|"+e.Mode]++
+			case "rel":
+				held[e.Base+"|"+e.Name+"|"+e.Mode]--
+			}
+		}
 		for i := len(ps.defers) - 1; i >= 0; i-- {
-			np = append(np, ps.defers[i]...)
+			for _, e := range ps.defers[i] {
+				// a deferred Unlock registered in a branch this path did not take (if mu.TryRLock() { defer mu.RUnlock() ... })
+				if e.K == "rel" {
+					if held[e.Base+"|"+e.Name+"|"+e.Mode] <= 0 {
+						continue
+					}
+					held[e.Base+"|"+e.Name+"|"+e.Mode]--
+				}
+				if e.K == "acq" {
+					held[e.Base+"|"+e.Name+"|"+e.Mode]++
+				}
+				np = append(np, e)
+			}
 		}
 		ps.done = append(ps.done, np)
 	}
@@ -730,54 +808,66 @@ func main() {
 			}
 		}
 	}
-	// which methods are helpers (unexported, take no lock of their own receiver class, called on the receiver from methods of the class)
-	calledOnRecv := map[*types.Func]bool{}
+	// roots: what other code can call.  A method that analysed code calls directly is analysed where it is called,
+	// with the caller's locks (helpers such as Tracer.resolve, Writer.receive, every method of store.segment);
+	// everything else - exported API, methods only reached through interfaces, goroutine bodies, closures that run later -
+	// is analysed on its own with no lock held.
+	called := map[*types.Func]bool{}
 	for _, fd := range fds {
-		if fd.Recv == nil {
-			continue
-		}
 		ast.Inspect(fd.Body, func(n ast.Node) bool {
 			if c, ok := n.(*ast.CallExpr); ok {
 				if sel, ok := c.Fun.(*ast.SelectorExpr); ok {
 					if s, ok := a.info.Selections[sel]; ok && s.Kind() == types.MethodVal {
-						calledOnRecv[s.Obj().(*types.Func)] = true
+						if owner := namedOf(s.Recv()); owner != nil && a.owners[owner] {
+							called[s.Obj().(*types.Func)] = true
+						}
 					}
 				}
 			}
 			return true
 		})
 	}
-	takesLock := func(fd *ast.FuncDecl) bool {
-		found := false
-		ast.Inspect(fd.Body, func(n ast.Node) bool {
-			if c, ok := n.(*ast.CallExpr); ok {
-				if ev, ok := a.lockCall(c); ok && ev.K == "acq" {
-					found = true
-				}
-			}
-			return true
-		})
-		return found
-	}
-	for _, fd := range fds {
+	done := map[*types.Func]bool{}
+	analyzeFn := func(fd *ast.FuncDecl, force bool) {
 		obj := a.info.Defs[fd.Name].(*types.Func)
+		if done[obj] {
+			return
+		}
 		sig := obj.Type().(*types.Signature)
 		if sig.Recv() == nil {
-			// plain functions: constructors are where fields may be set without the lock; others are analysed as units too
-			if strings.HasPrefix(fd.Name.Name, "New") || strings.HasPrefix(fd.Name.Name, "new") {
-				continue
+			name := fd.Name.Name
+			if strings.HasPrefix(name, "New") || strings.HasPrefix(name, "new") {
+				return // constructors: the object is not shared yet
 			}
-			a.analyzeBody(obj.Pkg().Name()+"."+fd.Name.Name, fd.Body)
-			continue
+			a.ctorCtx = strings.Contains(name, "With")
+			a.analyzeBody(obj.Pkg().Name()+"."+name, fd.Body)
+			a.ctorCtx = false
+			done[obj] = true
+			return
 		}
 		owner := namedOf(sig.Recv().Type())
 		if owner == nil {
-			continue
+			return
 		}
-		if !fd.Name.IsExported() && calledOnRecv[obj] && !takesLock(fd) && a.owners[owner] {
-			continue // helper: analysed where it is called, with the caller's locks
+		if strings.HasPrefix(fd.Name.Name, "Unmarshal") {
+			return // fills a fresh object in place (json.Unmarshal target): construction
 		}
+		exportedAPI := fd.Name.IsExported() && owner.Obj().Exported()
+		if !force && !exportedAPI && called[obj] {
+			return
+		}
+		done[obj] = true
 		a.analyzeBody(className(owner)+"."+fd.Name.Name, fd.Body)
+	}
+	for _, fd := range fds {
+		analyzeFn(fd, false)
+	}
+	for len(a.extra) > 0 {
+		fn := a.extra[0]
+		a.extra = a.extra[1:]
+		if d, ok := a.decls[fn]; ok {
+			analyzeFn(d, true)
+		}
 	}
 	for len(a.pending) > 0 {
 		p := a.pending[0]
@@ -798,6 +888,20 @@ func main() {
 	writeOutputs(a, out, classFields, classLocks)
 }
 
+type exemption struct{ unit, field, why string }
+
+var exemptions = []exemption{
+	{"store.segment.Scan", "store.segment.indexes", "segment is reachable only through store, whose methods hold store.mu around every call (Find: RLock, Index/Unindex: Lock); the slice header is copied under that outer lock"},
+	{"store.stream.Next", "store.stream.doc", "iterator state of the single consumer of a stream (Next then Decode), not shared"},
+	{"store.stream.Decode", "store.stream.doc", "iterator state of the single consumer of a stream (Next then Decode), not shared"},
+}
+
+type selfEdge struct{ lock, why string }
+
+var allowedSelf = []selfEdge{
+	{"process.Process.mu", "Keys / Value / RemoveValue hold the child's lock while calling the parent's: always child before parent, and the parent relation is a tree fixed at Fork"},
+}
+
 func writeOutputs(a *analyzer, out string, classFields, classLocks map[string][]string) {
 	// ids
 	ids := map[string]int{}
@@ -812,7 +916,7 @@ func writeOutputs(a *analyzer, out string, classFields, classLocks map[string][]
 	}
 	var sb strings.Builder
 	sb.WriteString("(* GENERATED by /verif/translator from the current source of /repo - do not edit. *)\n")
-	sb.WriteString("From Coq Require Import List.\nFrom Uf Require Import Lockset.Sync.\nImport ListNotations.\n\n")
+	sb.WriteString("From Coq Require Import List NArith.\nFrom Uf Require Import Lockset.Sync.\nImport ListNotations.\nLocal Open Scope N_scope.\n\n")
 	var ub strings.Builder
 	npaths, nev := 0, 0
 	for _, u := range a.units {
@@ -902,8 +1006,98 @@ func writeOutputs(a *analyzer, out string, classFields, classLocks map[string][]
 		}
 		gs = append(gs, fmt.Sprintf("(%d, %d)", id(f), id(lock)))
 	}
-	sb.WriteString("Definition guards : list (nat * nat) := [" + strings.Join(gs, "; ") + "].\n\n")
-	sb.WriteString("Definition units : list (nat * list (list ev)) := [\n" + strings.TrimSuffix(strings.TrimSuffix(ub.String(), "\n"), ";") + "\n].\n\n")
+	sb.WriteString("Definition guards : list (N * N) := [" + strings.Join(gs, "; ") + "].\n\n")
+	// documented exemptions: (unit, field) pairs the lockset discipline does not cover
+	var ex []string
+	sb.WriteString("(* exemptions:\n")
+	for _, e := range exemptions {
+		if _, ok := ids["unit:"+e.unit]; !ok {
+			continue
+		}
+		if _, ok := ids[e.field]; !ok {
+			continue
+		}
+		ex = append(ex, fmt.Sprintf("(%d, %d)", id("unit:"+e.unit), id(e.field)))
+		fmt.Fprintf(&sb, "   %s / %s: %s\n", e.unit, e.field, e.why)
+	}
+	sb.WriteString("*)\nDefinition exempt : list (N * N) := [" + strings.Join(ex, "; ") + "].\n\n")
+	// lock order: edges between lock classes, a ranking when they are acyclic
+	edges := map[[2]string][]string{}
+	for _, u := range a.units {
+		for _, p := range u.Paths {
+			var cur []event
+			for _, e := range p {
+				switch e.K {
+				case "acq":
+					for _, h := range cur {
+						k := [2]string{h.Name, e.Name}
+						if len(edges[k]) < 3 {
+							edges[k] = append(edges[k], u.Name+" "+e.Where)
+						}
+					}
+					cur = append(cur, e)
+				case "rel":
+					for i := len(cur) - 1; i >= 0; i-- {
+						if cur[i].Base == e.Base && cur[i].Name == e.Name && cur[i].Mode == e.Mode {
+							cur = append(cur[:i:i], cur[i+1:]...)
+							break
+						}
+					}
+				}
+			}
+		}
+	}
+	lockNames := map[string]bool{}
+	for cls, ls := range classLocks {
+		for _, l := range ls {
+			lockNames[cls+"."+l] = true
+		}
+	}
+	rank := map[string]int{}
+	for n := range lockNames {
+		rank[n] = 0
+	}
+	cyc := ""
+	for round := 0; round <= len(lockNames)+1; round++ {
+		changed := false
+		for k := range edges {
+			if k[0] == k[1] {
+				continue
+			}
+			if rank[k[1]] <= rank[k[0]] {
+				rank[k[1]] = rank[k[0]] + 1
+				changed = true
+			}
+		}
+		if !changed {
+			break
+		}
+		if round == len(lockNames)+1 {
+			cyc = "the lock order has a cycle"
+		}
+	}
+	var rs []string
+	var lns []string
+	for n := range lockNames {
+		lns = append(lns, n)
+	}
+	sort.Strings(lns)
+	for _, n := range lns {
+		r := rank[n]
+		if cyc != "" {
+			r = 0
+		}
+		rs = append(rs, fmt.Sprintf("(%d, %d)", id(n), r))
+	}
+	sb.WriteString("Definition rank : list (N * N) := [" + strings.Join(rs, "; ") + "].\n")
+	var self []string
+	sb.WriteString("(* self-edges allowed (one class, two objects, ordered by the data structure):\n")
+	for _, e := range allowedSelf {
+		self = append(self, fmt.Sprint(id(e.lock)))
+		fmt.Fprintf(&sb, "   %s: %s\n", e.lock, e.why)
+	}
+	sb.WriteString("*)\nDefinition allowed_self : list N := [" + strings.Join(self, "; ") + "].\n\n")
+	sb.WriteString("Definition units : list (N * list (list ev)) := [\n" + strings.TrimSuffix(strings.TrimSuffix(ub.String(), "\n"), ";") + "\n].\n\n")
 	sb.WriteString("(* names *)\n")
 	for i, n := range names {
 		fmt.Fprintf(&sb, "(* %d = %s *)\n", i, n)
@@ -914,7 +1108,12 @@ func writeOutputs(a *analyzer, out string, classFields, classLocks map[string][]
 	if err := os.WriteFile(out, []byte(sb.String()), 0o644); err != nil {
 		panic(err)
 	}
-	meta := map[string]any{"units": len(a.units), "paths": npaths, "events": nev, "names": names, "notes": a.notes, "guarded_fields": fields}
+	var edgeList []map[string]any
+	for k, v := range edges {
+		edgeList = append(edgeList, map[string]any{"from": k[0], "to": k[1], "at": v})
+	}
+	sort.Slice(edgeList, func(i, j int) bool { return fmt.Sprint(edgeList[i]["from"], edgeList[i]["to"]) < fmt.Sprint(edgeList[j]["from"], edgeList[j]["to"]) })
+	meta := map[string]any{"lock_order_edges": edgeList, "lock_order_cycle": cyc, "units": len(a.units), "paths": npaths, "events": nev, "names": names, "notes": a.notes, "guarded_fields": fields}
 	var dump []map[string]any
 	for _, u := range a.units {
 		dump = append(dump, map[string]any{"unit": u.Name, "paths": u.Paths, "truncated": u.Trunc})
